@@ -71,8 +71,9 @@ func genDetCase(c *core.Ctx, i int) detCase {
 	case 11: // a data map with two to five entries that cannot be bound (unsupported kinds, nested ones, the reserved name)
 		bad := map[string]func() any{"ch": func() any { return make(chan int) }, "fn": func() any { return func() {} }, "cx": func() any { return complex(1, 2) },
 			"nested": func() any { return map[string]any{"ok": 1, "deep": []any{make(chan string)}} }, "loop": func() any { return 1 }, "Ch": func() any { return make(chan bool) },
-			"up": func() any { return uintptr(7) }, "st": func() any { return struct{ F func() }{} }}
-		names := []string{"ch", "fn", "cx", "nested", "loop", "Ch", "up", "st"}
+			"up": func() any { return uintptr(7) }, "st": func() any { return struct{ F func() }{} },
+			"": func() any { return make(chan int) }, " ": func() any { return func() {} }, "0": func() any { return complex(0, 1) }, "~": func() any { return make(chan struct{}) }}
+		names := []string{"ch", "fn", "cx", "nested", "loop", "Ch", "up", "st", "", " ", "0", "~"}
 		r.Shuffle(len(names), func(a, b int) { names[a], names[b] = names[b], names[a] })
 		names = names[:2+r.Intn(4)]
 		sort.Strings(names)
